@@ -175,6 +175,29 @@ func runC03(x *X) {
 		compareTextTable(x, "C03", tg, dc, append(g.Tags(), "decoration:"+dc.Name))
 	})
 
+	wide := WideGrids()
+	x.Explore("wide", ExploreOpts{ShardDepth: 2, Bound: "4 tables of 10-13 columns x a multi-line/wide text in each column position in turn x all decorations"}, func(c *Chooser) {
+		g0 := wide[c.Choose(len(wide))]
+		dc := allDecors[c.Choose(len(allDecors))]
+		g := &Grid{HasHeader: g0.HasHeader, Header: append([]string{}, g0.Header...), HeaderLast: g0.HeaderLast}
+		for _, r := range g0.Rows {
+			g.Rows = append(g.Rows, GridRow{Sep: r.Sep, Cells: append([]string{}, r.Cells...)})
+		}
+		col := c.Choose(g.NCols() + 1)
+		if col > 0 {
+			g.EachCell(func(kind string, row, cl int, p *string) {
+				if cl == col-1 && row%2 == 0 {
+					*p = *p + "\nｗｗｗ"
+				}
+			})
+		}
+		tg := fromGrid(g)
+		c.Logf("decoration=%s table=%s", dc.Name, tg)
+		x.Transition(1)
+		x.Nontrivial(fmt.Sprint(dc.Name, g.ShapeKey(), col))
+		compareTextTable(x, "C03", tg, dc, append(g.Tags(), "decoration:"+dc.Name, "ten_or_more_columns"))
+	})
+
 	// custom decorations completed by Populate
 	dgrids := []*Grid{
 		{HasHeader: true, Header: []string{"h", "ii"}, Rows: []GridRow{{Cells: []string{"a", "b"}}, {Sep: true}, {Cells: []string{"c\nd"}}}},
